@@ -17,7 +17,7 @@ class Contract:
     """
     def __init__(self, key, params, returns=None, requires=None, ensures=None, raises=None, modifies=None,
                  touches=None, loops=None, defaults=None, variants=None, mod_globals=(), result=None,
-                 adapt=None, assumed=False, note='', array_sorts=None):
+                 adapt=None, assumed=False, note='', array_sorts=None, axioms=None, gen=None, runtime=None, local_types=None, runtime_pre=None):
         self.key, self.params, self.returns = key, params, returns
         self._requires = requires or (lambda S, a: [])
         self._ensures = ensures or (lambda S0, S, a, r: [])
@@ -33,6 +33,11 @@ class Contract:
         self.assumed = assumed            # True: external / trusted contract, never verified against a body
         self.note = note
         self._array_sorts = array_sorts or {}
+        self.axioms = axioms or (lambda: [])   # definitional axioms of spec functions used by this contract (assumed)
+        self.local_types = local_types or {}   # checked type hints for locals bound to dict keys
+        self.runtime_pre = runtime_pre
+        self.gen = gen                         # custom input generator for the run-time harness
+        self.runtime = runtime                 # custom run-time oracle (for clauses over uninterpreted spec functions)
 
     @property
     def path(self): return self.key.split('::')[0]
